@@ -20,7 +20,8 @@ EXTENDS Integers, Sequences, FiniteSets
 CONSTANTS K,            \* ticks per keep-alive interval (0 = keep-alive disabled, v4 only)
           Horizon,      \* ticks explored
           MaxDelay,     \* largest reply delay the broker may choose
-          ConnTimeout   \* connection timeout in ticks
+          ConnTimeout,  \* connection timeout in ticks
+          MaxConns      \* connections one event loop makes in a behaviour (after a reported failure it connects again)
 
 NEVER == 1000
 
@@ -38,21 +39,31 @@ VARIABLES
     \* ghosts
     lastPing,   \* tick of the last PINGREQ (or of the connection start)
     lateReply,  \* some reply was (or will be) later than one interval, or never
-    silentFrom  \* tick of the first ping that the broker never answers (NEVER if none so far)
+    silentFrom, \* tick of the first ping that the broker never answers (NEVER if none so far)
+    nconn       \* connections made so far
 
-vars == <<now, phase, since, deadline, await, due, stall, ping, failed, lastPing, lateReply, silentFrom>>
+vars == <<now, phase, since, deadline, await, due, stall, ping, failed, lastPing, lateReply, silentFrom, nconn>>
 
 Init ==
     /\ now = 0 /\ phase = "connecting" /\ since = 0 /\ deadline = NEVER /\ await = FALSE /\ due = NEVER
     /\ stall \in BOOLEAN
-    /\ ping = FALSE /\ failed = FALSE /\ lastPing = 0 /\ lateReply = FALSE /\ silentFrom = NEVER
+    /\ ping = FALSE /\ failed = FALSE /\ lastPing = 0 /\ lateReply = FALSE /\ silentFrom = NEVER /\ nconn = 1
 
 \* the CONNACK arrives (in the tick the connect started: the scripted broker answers at once) and the timer is armed
 Connected ==
     /\ phase = "connecting" /\ ~stall
     /\ phase' = "up" /\ since' = now /\ lastPing' = now
     /\ deadline' = IF K = 0 THEN NEVER ELSE now + K
-    /\ UNCHANGED <<now, await, due, stall, ping, failed, lateReply, silentFrom>>
+    /\ UNCHANGED <<now, await, due, stall, ping, failed, lateReply, silentFrom, nconn>>
+
+\* after a reported keep-alive failure the same event loop connects again: EventLoop::clean / MqttState::clean forget the
+\* outstanding ping, the timer is armed afresh by the new connection; what the old connection's broker did is history
+Reconnect ==
+    /\ phase = "failed" /\ nconn < MaxConns
+    /\ phase' = "connecting" /\ since' = now /\ deadline' = NEVER /\ await' = FALSE /\ due' = NEVER /\ stall' = FALSE
+    /\ ping' = FALSE /\ failed' = FALSE /\ lastPing' = now /\ lateReply' = FALSE /\ silentFrom' = NEVER
+    /\ nconn' = nconn + 1
+    /\ UNCHANGED now
 
 \* one tick of time passes; what becomes due in the new tick happens in it
 Tick ==
@@ -63,7 +74,7 @@ Tick ==
          THEN \* handshake stalled: timeout exactly at ConnTimeout
               /\ phase' = IF now + 1 - since >= ConnTimeout THEN "timedout" ELSE "connecting"
               /\ failed' = (now + 1 - since >= ConnTimeout)
-              /\ UNCHANGED <<since, deadline, await, due, stall, ping, lastPing, lateReply, silentFrom>>
+              /\ UNCHANGED <<since, deadline, await, due, stall, ping, lastPing, lateReply, silentFrom, nconn>>
          ELSE LET t == now + 1
                   fires == deadline = t
                   replyNow == due = t
@@ -88,9 +99,9 @@ Tick ==
                          ELSE /\ due' = IF replyNow THEN NEVER ELSE due
                               /\ await' = IF replyNow THEN FALSE ELSE await
                               /\ UNCHANGED <<lateReply, silentFrom>>
-                    /\ UNCHANGED <<since, stall>>
+                    /\ UNCHANGED <<since, stall, nconn>>
 
-Next == Connected \/ Tick
+Next == Connected \/ Tick \/ Reconnect
 Spec == Init /\ [][Next]_vars
 
 ---------------------------------------------------------------------------
